@@ -115,6 +115,7 @@ class Exec:
         self.quiet_points = []
         self._picks = []
         self._pick_i = 0
+        self._quiet_now = True
         if impl == 'thread':
             self.world.pick = self._pick
 
@@ -157,7 +158,7 @@ class Exec:
     def _promote(self, s):
         """Client-side view: the upgrade socket becomes the session's transport once the client
         has sent PING probe, seen PONG probe and sent UPGRADE on it (and it is still open)."""
-        if s.upg is None or s.main_ws is not None:
+        if s.upg is None or s.main_ws is not None or not self._quiet_now:
             return
         att = [x for x in s.upg_attempts if x['conn'] is s.upg]
         if not att:
@@ -265,6 +266,7 @@ class Exec:
     def settle(self):
         for _ in range(50):
             self.world.settle()
+            self._quiet_now = True
             if not self.automate():
                 break
 
@@ -332,10 +334,12 @@ class Exec:
         self._det = self.annotate(a)
         self.world.app_log.step = len(self.actions)
         op = a['op']
+        self._quiet_now = False
         getattr(self, 'op_' + op)(a)
         if a.get('settle', True) and op not in ('advance',):
             self.settle()
             self.quiet_points.append(len(self.actions))
+        self._quiet_now = (a.get('settle', True) or op == 'advance')
         self.collect()
 
     def annotate(self, a):
@@ -437,7 +441,11 @@ class Exec:
         s.upg = conn
         s.upg_attempts.append({'conn': conn, 'frames': [], 't': self.now,
                                'step': len(self.actions),
-                               'had_main': s.main_ws is not None})
+                               'unsettled': not a.get('settle', True),
+                               'had_main': s.main_ws is not None,
+                               'main_was_dead': s.main_ws is not None and (
+                                   s.main_ws.done or s.main_ws.peer_closed or
+                                   s.main_ws.failed or s.main_ws.server_closed)})
 
     def _sock(self, s, which):
         if s is None:
@@ -454,6 +462,8 @@ class Exec:
         for att in s.upg_attempts:
             if att['conn'] is conn:
                 att['frames'].append((self.now, frame))
+                if not a.get('settle', True):
+                    att['unsettled'] = True
         pt, payload, _ = parse_frame(frame) if frame not in ('', b'') else (None, frame, frame)
         s.client_sent.append({'t': self.now, 'via': 'ws', 'conn': conn, 'frame': frame,
                               'pkts': [(pt, payload)], 'raw': frame, 'req': None,
@@ -470,6 +480,9 @@ class Exec:
             return
         self.world.ws_client_close(conn)
         conn.t_peer_closed = self.now
+        for att in s.upg_attempts:
+            if att['conn'] is conn and not a.get('settle', True):
+                att['unsettled'] = True
         if conn is s.main_ws:
             s.causes.append({'t': self.now, 'cause': 'ws-close', 'step': len(self.actions),
                              'det': self.annotate_live(s)})
